@@ -27,7 +27,7 @@ SUPPORTED = (algebra.UNARY_PROPS - algebra.MOMENTUM_ONLY) | {
     "rotate_nautical", "rotate_quaternion", "transform2D", "transform3D", "transform4D", "boostX_beta", "boostY_beta", "boostZ_beta",
     "boostX_gamma", "boostY_gamma", "boostZ_gamma", "add", "subtract", "cross", "dot", "deltaphi", "deltaangle", "deltaeta", "deltaR",
     "deltaR2", "deltaRapidityPhi", "deltaRapidityPhi2", "boost_p4", "boost_beta3", "boostCM_of_p4", "boostCM_of_beta3", "boost",
-    "boostCM_of", "is_parallel", "is_antiparallel", "is_perpendicular", "is_timelike", "is_spacelike", "is_lightlike"}
+    "boostCM_of", "equal", "not_equal", "isclose", "is_parallel", "is_antiparallel", "is_perpendicular", "is_timelike", "is_spacelike", "is_lightlike"}
 MOMENTUM_PROPS = {"Et": "transverse_energy", "Et2": "transverse_energy2", "Mt": "transverse_mass", "Mt2": "transverse_mass2"}
 
 
@@ -397,6 +397,11 @@ def worker(args):
             r, c, k = run_job(it)
         elif kind == "prog":
             r, c, k = run_program(*it)
+        elif kind == "extra":
+            from . import numbax_extra
+
+            r, c = numbax_extra.run_item(it)
+            k = 1
         else:
             r, c = run_awkward(*it)
             k = c
@@ -441,8 +446,11 @@ def replay(cases, progs, tier="quick", seed=0, procs=16, only_programs=False):
         aitems = aitems[::5]
     if only_programs:
         aitems = []
-    work = [("job", [j]) for j in jobs] + [("prog", pitems[i::16]) for i in range(16) if pitems[i::16]] + [("ak", [a]) for a in aitems]
-    total = {"records": [], "calls": 0, "compiled": 0, "jobs": len(jobs), "programs": len(pitems), "awkward": len(aitems)}
+    from . import numbax_extra
+
+    xitems = [] if only_programs else numbax_extra.plan(tier, seed)
+    work = [("extra", [x]) for x in xitems if x[0] == "unary"] + [("job", [j]) for j in jobs] + [("extra", [x]) for x in xitems if x[0] != "unary"] + [("prog", pitems[i::16]) for i in range(16) if pitems[i::16]] + [("ak", [a]) for a in aitems]
+    total = {"records": [], "calls": 0, "compiled": 0, "jobs": len(jobs), "programs": len(pitems), "awkward": len(aitems), "extra": len(xitems)}
     with mp.get_context("spawn").Pool(procs) as pool:
         for out in pool.imap_unordered(worker, work, chunksize=1):
             total["records"] += out["records"]
